@@ -13,7 +13,8 @@ func RepoSquash(stores context2.Stores, repoName string, opts ...Option) error {
 		return fmt.Errorf("cannot find repo: %s: %v", repoName, err)
 	}
 
-	opts = append(opts, WithMinimalBundle(true)) // limits I/Os with remote store: we only need keys
+	// NOTE: bundles must be listed with their descriptors, not from their keys only: the file lists left behind
+	// by an interrupted upload are not a bundle and must neither count among the latest ones nor be retained.
 
 	bundles, err := ListBundles(repoName, stores, opts...)
 	if err != nil {
